@@ -2986,3 +2986,60 @@ func ruleMarkdownBlanksCovered(c *eng.Ctx) {
 		c.Check(guarded, R, name, root.Pos(), "cell values are written under the merge test", "no cell value is written under a test of IsMerged/IsMergeRoot any more: covered cells of merged regions show their stale stored values")
 	}
 }
+
+// R14.13 [C14]
+func ruleSearchNormalisesBoth(c *eng.Ctx) {
+	const R = "R14.13-SEARCH-NORMALISES-BOTH"
+	c.Rule(R, "ChunkCollection.Search compares keyword and chunk text under the same normalisation: every case-folding function applied to the keyword (strings.ToLower, ToUpper, a Unicode folding) is applied to the chunk text as well, by the same function; folding one side fully and the other by hand (ASCII only) drops the chunks whose match contains non-ASCII upper case", 1, 0)
+	name := "rag.(*ChunkCollection).Search"
+	fn := c.P.Func(name)
+	if fn == nil {
+		c.Undec(R, name, token.NoPos, "anchor not found")
+		return
+	}
+	folds := map[string]bool{"strings.ToLower": true, "strings.ToUpper": true, "strings.ToTitle": true, "strings.ToLowerSpecial": true, "strings.ToUpperSpecial": true}
+	var kw ssa.Value
+	for _, p := range fn.Params {
+		if bt, ok := p.Type().Underlying().(*types.Basic); ok && bt.Kind() == types.String {
+			kw = p
+		}
+	}
+	onKeyword := map[string]bool{}
+	onText := map[string]bool{}
+	hosts := eng.Cluster(fn, 2)
+	for i := 0; i < len(hosts); i++ {
+		hosts = append(hosts, hosts[i].AnonFuncs...)
+	}
+	seenH := map[*ssa.Function]bool{}
+	for _, h := range hosts {
+		if h.Pkg != fn.Pkg || seenH[h] {
+			continue
+		}
+		seenH[h] = true
+		for _, ci := range eng.Calls(h, false, func(nm string, _ ssa.CallInstruction) bool { return folds[nm] }) {
+			nm := eng.CalleeName(ci)
+			arg := ci.Common().Args[0]
+			for w := range sliceWithFreeVars(arg, []*ssa.Function{fn, h}) {
+				if w == kw {
+					onKeyword[nm] = true
+				}
+				if fr, ok := eng.AsField(w); ok && fr.Field == "Text" && strings.HasSuffix(fr.Struct, "rag.Chunk") {
+					onText[nm] = true
+				}
+			}
+		}
+	}
+	var lop []string
+	for f := range onKeyword {
+		if !onText[f] {
+			lop = append(lop, f)
+		}
+	}
+	for f := range onText {
+		if !onKeyword[f] {
+			lop = append(lop, f)
+		}
+	}
+	sort.Strings(lop)
+	c.Check(len(lop) == 0, R, name, fn.Pos(), "keyword and text are folded by the same functions", strings.Join(lop, ", ")+" is applied to one side of the comparison only: the two sides are no longer compared under one normalisation, and chunks whose match needs the full folding are silently left out")
+}
